@@ -13,6 +13,11 @@ package control
 //   L4   persistent DNS-over-TCP client connections through handleTCPDnsFastPath with the
 //        optimistic cache on: 2-6 different queries back to back over every cache state,
 //        the background refreshes run late (held until the connection is drained) or freely
+//   L5   the life of a cached answer: the entry dae stored is made d seconds older (around the 15 s
+//        repack threshold, almost the whole TTL, past the TTL inside/outside the stale window; plain
+//        copy / reload clone / PrepackResponse / no ready-made bytes), then single clients and bursts
+//        ask through four ingresses (writer, dns_listener ServeDNS, UDP, DNS-over-TCP fast path);
+//        also negative entries, reject, SERVFAIL, and the cache lookup calls under a virtual clock
 //
 // Oracles: per reply (ID, question, answer marker), cache content at
 // quiescence, no two overlapping upstream resolutions of one question,
@@ -35,6 +40,8 @@ func TestVerifC09(t *testing.T) {
 			"TCP reorder and close mid-stream) and 8-64 concurrent clients with transaction IDs from {7,8}; "+
 			"L4: per round 1-3 persistent client TCP connections through the transparent fast path, each with 2-6 different queries (one segment / one segment per query / strictly sequential) "+
 			"over names whose entries are missing, fresh, stale (background refresh, run late or freely), negative or uncacheable, then a fresh single query per question used; "+
+			"L5: per round 3-6 names (TTL 20 s..1 day; first answer ok / slow with a burst of identical questions / negative / after an upstream error), then 5-10 steps that make one cached entry d seconds older "+
+			"(drift against the bytes' TTL threshold-6..threshold+2 around dae's 15 s repack threshold, almost the whole TTL, expired inside / outside the stale window) and ask through writer / dns_listener / UDP / TCP fast path, one client or 4-12 at once; "+
 			"distinct = (layer, upstream scheme, client path, qtype, colliding-ID overlap, identical-question overlap, reply kind, set of upstream behaviours the question met); "+
 			"non-trivial = the client's question met at least one upstream call or was served from cache while other clients were in flight")
 	m.SetFloor(80)
@@ -45,6 +52,7 @@ func TestVerifC09(t *testing.T) {
 		"client ingress is emulated as in control/udp.go (Handle_, then dae's own SERVFAIL/TC helpers on error) and dns_listener.go/tcp.go (HandleWithResponseWriter_)",
 		"timeouts are shortened only through contexts passed in (L2/L2b) or by the fake upstream giving up early (L1); no dae constant is edited",
 		"L4: the ControlPlane value carries only what handleTCPDnsFastPath reads (log, DnsController); stale entries come from upstream answers with TTL 0 (expired at once, inside the 60 s stale window); the schedule 'refresh goroutine runs after the connection's later queries' is produced through the LifecycleContext the embedder passes to NewDnsController (its Deadline() parks callers whose stack is rooted in the refresh goroutine while the gate is closed) - no code of dae is changed; replies are matched to the queries of their connection by (ID, question), in order first",
+		"L5: time is not waited for: the age of a cached answer is produced by publishing, in place of the entry dae stored, a copy whose Deadline / deadlineNano / packedResponseCreatedAt lie d seconds earlier (records and packed bytes are dae's own; copy made by the monitor, by CloneForReload, re-packed by the exported PrepackResponse, or without ready-made bytes as after a failed pack at insert); the verdict is the reply oracle only, which constructor or age class a reply went through is read from internal state and the upstream call log for coverage counters only; the virtual-clock walk repeats the two calls LookupDnsRespCache_ makes for an unexpired entry with a later `now` on a private copy and hands the bytes to writeCachedResponse",
 	)
 	if err := c09CheckMarkerInjective(); err != nil {
 		m.Inconclusive("marker not injective on the pool: %v", err)
@@ -66,6 +74,7 @@ func TestVerifC09(t *testing.T) {
 	nL2b := vk.Scale(40, 800)
 	nL3 := vk.Scale(120, 2500)
 	nL4 := vk.Scale(150, 3000)
+	nL5 := vk.Scale(180, 3600)
 	stop := func() bool { return m.Violations() >= 8 && os.Getenv("VERIF_C09_NOSTOP") == "" }
 	only := os.Getenv("VERIF_C09_LAYERS") // diagnosis only, e.g. "L3" or "L1,L1r"; a partial run ends INCONCLUSIVE
 	layer := func(name string, n int, f func(i int)) {
@@ -84,6 +93,7 @@ func TestVerifC09(t *testing.T) {
 	layer("L2b", nL2b, func(i int) { e.c09L2bRound(r, i) })
 	layer("L3", nL3, func(i int) { e.c09L3Round(r, i) })
 	layer("L4", nL4, func(i int) { e.c09L4Round(r, i) })
+	layer("L5", nL5, func(i int) { e.c09L5Round(r, i) })
 	if m.Violations() == 0 {
 		m.Require(
 			"msgs_judged", "answer_markers_checked", "cache_entries_checked", "cache_markers_checked",
@@ -98,6 +108,7 @@ func TestVerifC09(t *testing.T) {
 			"L4_pipelined_conns_seg_one", "L4_pipelined_conns_seg_each", "L4_pipelined_conns_seg_wait",
 			"L4_queries_answered_from_cache", "L4_queries_resolved_upstream", "L4_probe_queries", "L4_primed_stale", "L4_primed_fresh", "L4_primed_negative",
 		)
+		m.Require(c09L5Required()...)
 	}
 	m.Done(t)
 }
